@@ -10,9 +10,10 @@
    [demand_of k1 v k2]  what the property text fixes for annotating v : k1 with k2;
    [exact_result k2 c q]  c is a well-formed value of kind k2 denoting exactly q. *)
 From Coq Require Import List Arith ZArith QArith.
-From Coq Require String.
+From Coq Require Import String.
 From MechV Require Import Base.Sexp Base.Obs Model.Convert Model.ConvertJ Proofs.ConvertP.
 Import ListNotations.
+Local Open Scope string_scope.
 Local Open Scope Z_scope.
 
 (* 1. A number converted to a kind that can represent it yields exactly that number
@@ -184,6 +185,16 @@ Theorem C12_judge_set_sound : forall (k1 : kind) (m : mat sx) (vs : list sval) (
 Proof. exact judge_set_sound. Qed.
 Print Assumptions C12_judge_set_sound.
 
+(* the judge of a whole case line (what ./check feeds it): an `ok` means the source value read from
+   step 1 and the observation of step 2 satisfy the spec of the form *)
+Theorem C12_judge_sound : forall (kfa : kfa_t) (fs ks : String.string) (dx t o1 s1 o2 s2 : sx) (tag : String.string),
+  judge_convert kfa (Lx [Lx [Ax "conv"; Ax fs; Ax ks; dx; t];
+                         Lx [Ax "session"; Lx [Ax "step"; o1; s1]; Lx [Ax "step"; o2; s2]]]) = v_ok tag ->
+  exists fm k2 dims, form_of_string fs = Some fm /\ kind_of_string ks = Some k2 /\ decode_dims dx = Some dims /\
+                     case_spec fm k2 dims o1 o2.
+Proof. exact judge_convert_sound. Qed.
+Print Assumptions C12_judge_sound.
+
 (* ---- non-vacuity ---- *)
 (* f64 300.75 -> u8 clamps to 255; -1.5 -> i8 truncates to -1; u8 255 -> f32 -> u8 round trip *)
 Example C12_example_values :
@@ -194,7 +205,7 @@ Example C12_example_values :
   (exists q, denote F32 (VFlt 1132396544) = Some q /\ (q == inject_Z 255)%Q) /\
   repr F32 (inject_Z 16777217) = false /\ repr F32 (inject_Z 16777216) = true /\
   demand_of F64 (VFlt 4643998487338385408) U8 = DExact (inject_Z 255) /\
-  demand_of KStr (VStr String.EmptyString) U8 = DErr /\
+  demand_of KStr (VStr "a") U8 = DErr /\
   in_known_finding FScalar false F64 U8 = false.
 Proof.
   repeat split; try (vm_compute; reflexivity).
